@@ -2,7 +2,7 @@
    witness computed by vm_compute; every witness was replayed on the real library (reports/maptrie.md). *)
 From Coq Require Import List ZArith Bool Arith Lia.
 Import ListNotations.
-Require Import Verif.gen.Consts_trie Verif.MapTrieModel Verif.MapTrieSpec.
+Require Import Verif.gen.Consts_trie Verif.MapTrieModel Verif.MapTrieSpec Verif.MapTrieGuards.
 
 Definition kabc := [97; 98; 99]. Definition kabd := [97; 98; 100]. Definition kab := [97; 98].
 
@@ -55,4 +55,15 @@ Lemma split_parked_refuted :
                           RKV (Some (Some kabd, Some 2)); RKV None; RUnit; RInt TRIE_QB_TRUE; RVal (Some 1); RInt 1] /\
   guard_split (match snd (run true trie_init [OPut kabc 1; OIterCreate 0 None; OIterNext 0]) with Ok t => t | Err _ => trie_init end)
               (OPut kabd 2) = false.
+Proof. split; vm_compute; reflexivity. Qed.
+
+(* K4 (C18 / C17): an insertion that splits the root node of an open prefix iterator above the end of the prefix:
+   the iterator for prefix "abc" then returns "abx" *)
+Definition w_split_root := [OPut [97;98;99;100] 1; OPut [97;98;99;101] 2; OIterCreate 0 (Some kabc); OIterNext 0;
+                            OPut [97;98;120] 3; OIterNext 0; OIterNext 0; OIterNext 0].
+Lemma split_prefix_root_refuted :
+  outs_of true w_split_root = [RUnit; RUnit; RUnit; RKV (Some (Some [97;98;99;100], Some 1)); RUnit;
+                               RKV (Some (Some [97;98;99;101], Some 2)); RKV (Some (Some [97;98;120], Some 3)); RKV None] /\
+  guard_split_root (match snd (run true trie_init (firstn 4 w_split_root)) with Ok t => t | Err _ => trie_init end)
+                   (OPut [97;98;120] 3) = false.
 Proof. split; vm_compute; reflexivity. Qed.
